@@ -218,7 +218,7 @@ func c15NoiseCase(rec *kit.Rec, rng *mrand.Rand, k c15Keys, reqLen, respLen int)
 	rc.Initiator = false
 	rc.StaticKeypair = noise.DHKey{Private: k.priv, Public: pub}
 
-	var msg, gotReq, encResp, gotResp []byte
+	var msg, gotReq, encResp, gotResp, msgSnap, encRespSnap []byte
 	var iRecv, rSend *noise.CipherState
 	var stage string
 	var err error
@@ -235,6 +235,7 @@ func c15NoiseCase(rec *kit.Rec, rng *mrand.Rand, k c15Keys, reqLen, respLen int)
 		if rh, err = noise.NewHandshakeState(rc); err != nil {
 			return
 		}
+		msgSnap = append([]byte(nil), msg...)
 		if gotReq, rSend, _, err = rh.ReadMessage(nil, msg); err != nil {
 			return
 		}
@@ -243,6 +244,7 @@ func c15NoiseCase(rec *kit.Rec, rng *mrand.Rand, k c15Keys, reqLen, respLen int)
 			return
 		}
 		stage = "initiator-decrypt"
+		encRespSnap = append([]byte(nil), encResp...)
 		gotResp, err = iRecv.Decrypt(nil, nil, encResp)
 	})
 	if pk {
@@ -261,6 +263,18 @@ func c15NoiseCase(rec *kit.Rec, rng *mrand.Rand, k c15Keys, reqLen, respLen int)
 				map[string]interface{}{"case": desc, "error": err.Error(), "handshake_len": len(msg), "response_len": len(encResp)})
 		}
 		return
+	}
+	if !bytes.Equal(msg, msgSnap) || !bytes.Equal(encResp, encRespSnap) {
+		rec.Violation("encryption:noise:decoder-modifies-its-input", "decrypting changed the caller's ciphertext buffer",
+			map[string]interface{}{"case": desc, "handshake_unchanged": bytes.Equal(msg, msgSnap), "response_unchanged": bytes.Equal(encResp, encRespSnap)})
+		return
+	}
+	// the same handshake message read by a second responder state (a retransmitted query) must give the same request
+	if rh2, err := noise.NewHandshakeState(rc); err == nil {
+		if again, _, _, err := rh2.ReadMessage(nil, msg); err != nil || !bytes.Equal(again, req) {
+			rec.Violation("encryption:noise:second-decode-differs", "reading the same handshake message a second time fails or gives another request", map[string]interface{}{"case": desc, "error": fmt.Sprint(err)})
+			return
+		}
 	}
 	if !bytes.Equal(gotReq, req) {
 		rec.Violation("encryption:noise:request-mismatch", "the responder's decrypted request differs from what the initiator sent", map[string]interface{}{"case": desc})
